@@ -221,7 +221,10 @@ class Ctx(object):
         self.findings = load_findings()
 
     def scale(self, quick, thorough):
-        return thorough if self.tier == 'thorough' else quick
+        """size of an exploration: the quick tier runs QUICK_MULT times the base size (still seconds)"""
+        if self.tier == 'thorough':
+            return thorough
+        return min(thorough, quick * int(os.environ.get('VERIF_QUICK_MULT', '3')))
 
     def seen(self, case):
         h = hashlib.md5((case.newick() + '|' + case.xml()).encode()).hexdigest()
